@@ -31,6 +31,7 @@ package api
 import (
 	"context"
 	"encoding/json"
+	"errors"
 	"fmt"
 	"sort"
 	"strings"
@@ -48,6 +49,7 @@ import (
 	"github.com/ory/keto/verif/apih"
 	"github.com/ory/keto/verif/ev"
 	"github.com/ory/keto/verif/refsem"
+	"github.com/ory/keto/verif/sqlfault"
 )
 
 type c16Str struct {
@@ -366,6 +368,35 @@ func (r *c16Run) runMapBatch(s *apih.Server, c c16Case) {
 		if back[i] != in[i] {
 			r.bad(c, "mapbatch:MapUUIDsToStrings:position", "batch of %d ids (%s, %d distinct): position %d holds %s, want %s", len(in), c.Pattern, c16Distinct(in), i, c16Clip(back[i]), c16Clip(in[i]))
 			break
+		}
+	}
+	// a reverse lookup over several lookup pages with ONE failing statement (every statement in turn): an error,
+	// or the right names - a failed page must not come back as empty names
+	if c.Pattern == "none" && (c.N == 150 || c.N == 250) {
+		s.Settle()
+		s.Tap.ResetCount()
+		_, _ = mm.MapUUIDsToStrings(ctx, u...)
+		n := int(s.Tap.Count())
+		for k := 1; k <= n; k++ {
+			cnt := 0
+			s.Tap.SetBefore(func(*sqlfault.Event) error {
+				if cnt++; cnt == k {
+					return errors.New("verif: injected storage failure")
+				}
+				return nil
+			})
+			got, err := mm.MapUUIDsToStrings(ctx, u...)
+			s.Tap.SetBefore(nil)
+			r.count("mapbatch", 1, "")
+			if err != nil {
+				continue
+			}
+			for i := range in {
+				if i >= len(got) || got[i] != in[i] {
+					r.bad(c, "mapbatch:MapUUIDsToStrings:failed-page-reported-as-names", "reverse lookup of %d ids with SQL statement %d of %d failing returns no error and position %d holds %q, want %s", len(in), k, n, i, c16Clip(got[i]), c16Clip(in[i]))
+					break
+				}
+			}
 		}
 	}
 	nt := ""
